@@ -73,6 +73,10 @@ func vVariant(k int, name string) Object {
 		}
 		h := []geometry.Point{{X: 0.25, Y: 0.25}, {X: 0.75, Y: 0.25}, {X: 0.75, Y: 0.75}, {X: 0.25, Y: 0.75}, {X: 0.25, Y: 0.25}}
 		return NewPolygon(geometry.NewPoly(L, [][]geometry.Point{h}, rtOpts))
+	case 30: // one-point line with an R-tree index requested (an index with no segments)
+		return NewLineString(geometry.NewLine([]geometry.Point{p[0]}, rtOpts))
+	case 31: // polygon with a one-point hole and a two-point hole, R-tree index requested
+		return NewPolygon(geometry.NewPoly(tri, [][]geometry.Point{{p[3]}, {p[3], p[1]}}, rtOpts))
 	case 28: // FeatureCollection whose children are not all Features (the constructor accepts any objects)
 		return NewFeatureCollection([]Object{NewPoint(p[0]), NewFeature(NewPoint(p[1]), ""), NewPolygon(nil), NewRect(geometry.Rect{Min: p[0], Max: p[0]})})
 	case 29: // GeometryCollection with its child R-tree built (IndexChildren 1)
